@@ -15,7 +15,7 @@ OUTSIDE = ["character-level escaping (msdparser)", "strings longer than 3 (field
 
 
 def obligations(tier):
-    T = 90 if tier == "quick" else 600
+    T = 90 if tier == "quick" else 900
     return [
         dict(name="selftest_strip", func="selftest_strip", file="xhlib.py", timeout=60, bounds="engine self-test: strip/rstrip identities, |s|<=3"),
         *[dict(name=f"props3[k0%8=={r}]", func="props3", pre=f"k0 % 8 == {r}", timeout=2 * T, bounds="3 properties: first key any literal-derived key (symbolic index), second from 8 keys, third a duplicate of the first or CREDIT; values any Unicode <=3 (first may be None), chart field <=2") for r in range(8)],
@@ -43,5 +43,5 @@ def replay(data):
 
 
 def main(tier):
-    return xhprop.main(PROP, tier, FILE, obligations(tier), FUNCTIONS, ASSUMPTIONS, OUTSIDE, signature,
+    return xhprop.main(PROP, tier, FILE, obligations(tier), FUNCTIONS, ASSUMPTIONS, OUTSIDE, signature, extra_chars=(1 if tier == "thorough" else 0),
                        bounds="strings <=3 (fields <=2), <=3 properties, <=2 charts, keys from the literal-derived key set")
